@@ -45,6 +45,14 @@ func runC01(r *Run) {
 	for i := 0; i < r.n(12, 150); i++ {
 		r.c01Maintenance(i)
 	}
+	// more announces under hostile replies, crossing the announce's own options (variant = 5k+1 selects the announce)
+	for k := 0; k < r.n(30, 300) && !r.c14Full(); k++ {
+		sc := r.newSrvScen(srvOpts{noSecurity: true, peerStore: k%2 == 0, mute: true})
+		sc.hostileReplies(5*k + 1)
+		sc.probe()
+		r.Result.TracesValidated++
+		sc.close()
+	}
 	// the modelled stream as well (never_crashes / inv_step tie): well-typed traffic replayed on the model
 	for i := 0; i < r.n(10, 200); i++ {
 		sc := r.newSrvScen(r.optsVariant(i))
@@ -384,13 +392,38 @@ func (sc *srvScen) hostileReplies(variant int) {
 				selfEnded.Store(err == nil || ctx.Err() == nil)
 			}
 		case 1:
-			a, err := sc.s.AnnounceTraversal(sc.r.randID(), dht.AnnouncePeer(dht.AnnouncePeerOpts{Port: 6881}))
+			// option grid of the announce: with / without the announce_peer step, scrape, consumer reading Peers or
+			// not, and the application closing it (or stopping the traversal) at a PRNG-chosen moment while the
+			// hostile replies are being delivered
+			var opts []dht.AnnounceOpt
+			if variant%3 != 0 {
+				opts = append(opts, dht.AnnouncePeer(dht.AnnouncePeerOpts{Port: 6881, ImpliedPort: variant%4 == 1}))
+			}
+			if variant%7 == 1 {
+				opts = append(opts, dht.Scrape())
+			}
+			reading := variant%6 != 1
+			closeAfter := time.Duration(-1)
+			if variant%15 >= 6 || !reading {
+				closeAfter = time.Duration(sc.r.rng.Intn(3000)) * time.Microsecond
+			}
+			sc.ev("announce: opts=%d reading=%v closeAfter=%v", len(opts), reading, closeAfter)
+			a, err := sc.s.AnnounceTraversal(sc.r.randID(), opts...)
 			selfEnded.Store(true)
 			if err == nil {
-				go func() {
-					for range a.Peers {
+				if reading {
+					go func() {
+						for range a.Peers {
+						}
+					}()
+				}
+				if closeAfter >= 0 {
+					time.Sleep(closeAfter)
+					if variant%2 == 0 {
+						a.StopTraversing()
 					}
-				}()
+					a.Close()
+				}
 				select {
 				case <-a.Finished():
 				case <-ctx.Done():
